@@ -27,8 +27,8 @@ JOBS = min(4, common.NCPU)
 # regex ASTs (python tuples), rendered to the regex crate's syntax and to python's
 
 META = set("\\.+*?()|[]{}^$")
-LIT_POOL = list("aaabbc:xe") + list("yz019_- ") + ["é", "ö", "A", "]", "}", "#", "&", "~", "\n", ".", "*", "(", ")", "|",
-                                                    "[", "^", "$", "\\", "+", "?", "{", "-", "\t", "ab"[0]]
+LIT_POOL = list("aaaabbc:xe") + list("yz019_- ") + ["é", "ö", "A", "]", "}", "#", "&", "~", "\n", ".", "*", "(", ")", "|",
+                                                     "[", "^", "$", "\\", "+", "?", "{", "-", "\t"]
 HAY_POOL = list("aabbc::xe") + list("yz019_- ") + ["é", "A", "]", "\n", ".", "^", "$", "٣"]
 PERL = "dwsDWS"
 PERL_PY = {"d": "0-9", "w": "0-9A-Za-z_", "s": "\\t\\n\\x0b\\x0c\\r "}
@@ -120,7 +120,7 @@ def cls_rust(neg, items, rng=None):
             first, last = k == 0, k == len(items) - 1
             if c == "]" and first and rng is not None and rng.random() < 0.5:
                 out.append("]")
-            elif c == "-" and (first or last) and rng is not None and rng.random() < 0.5 and not (first and last and False):
+            elif c == "-" and (first or last) and rng is not None and rng.random() < 0.5:
                 out.append("-")
             elif c == "^" and not first and rng is not None and rng.random() < 0.5:
                 out.append("^")
@@ -286,10 +286,6 @@ def haystacks(rng, asts, extra=()):
             seen.add(h)
             out.append(h)
     return out[:40]
-
-
-def py_flags(p):
-    return re.compile(p, re.DOTALL if False else 0)
 
 
 # ---------------------------------------------------------------------------------------------
@@ -717,7 +713,10 @@ class SelRun:
             if not kinds:
                 kinds = ["no-pattern"]
             text = common.render_journal(txns, common.gen_layout(rng))
-            out.append({"fam": "selrun", "op": "run", "kind": "sel:" + "+".join(sorted(set(kinds))), "cfg": cfg, "text": text,
+            prio = ["name-part", "top-alt", "own-anchors", "wrapper-text", "empty", "dotstar", "dotstar-leaf", "prefix-dotstar",
+                    "exact", "random", "no-pattern"]
+            kind = [k for k in prio if k in kinds][0]      # one boundary class per case (the most specific one used)
+            out.append({"fam": "selrun", "op": "run", "kind": "sel:" + kind, "sel_kinds": sorted(set(kinds)), "cfg": cfg, "text": text,
                         "names": sorted(names), "py": pys, "perl": perl})
         return out
 
